@@ -179,7 +179,7 @@ def pipeline(chk, want_shape_tlc):
     groups = []   # (tag, universe, cases)
     gstats = {}
     # --- all generators run concurrently (TLC is the slow part)
-    walks_cfg = [("u40", "Gen_BTreeMap_walk40.cfg", {"sorted": 6, "reverse": 6, "random": 6, "eqprefix": 6} if thorough else {"sorted": 1, "reverse": 1, "random": 2, "eqprefix": 2}),
+    walks_cfg = [("u40", "Gen_BTreeMap_walk40.cfg", {"sorted": 6, "reverse": 6, "random": 6, "eqprefix": 6} if thorough else {"sorted": 2, "reverse": 2, "random": 2, "eqprefix": 2}),
                  ("u20", "Gen_BTreeMap_walk20.cfg", {"deep": 6, "reverse": 5, "random": 5} if thorough else {"deep": 2, "reverse": 1, "random": 1})]
     got = {}
 
@@ -208,7 +208,7 @@ def pipeline(chk, want_shape_tlc):
     for i, c in enumerate(bfs):
         c["hint"] = HINTS[i % 3]
         c["store"] = "mmap" if i % 12 == 0 else "mem"
-        c["dump"] = "last" if i % (4 if thorough else 40) == 0 else "none"
+        c["dump"] = "last" if i % (4 if thorough else 12) == 0 else "none"
     groups.append(("u6", uni6, bfs))
     # --- cells that are not SplitSafe
     unib, big, st = got["big"]
@@ -224,7 +224,7 @@ def pipeline(chk, want_shape_tlc):
         for wi, w in enumerate(walks):
             for hi, h in enumerate(HINTS):
                 cs.append({"w": w["w"], "steps": w["steps"], "hint": h, "store": "mmap",
-                           "dump": "all" if hi == wi % 3 and (thorough or wi < 2) else "every:%d" % (5 if thorough else 24)})
+                           "dump": "all" if hi == wi % 3 and (thorough or wi % 2 == 0) else "every:%d" % (5 if thorough else 12)})
         groups.append((tag, uni, cs))
         gstats[tag] = {"walks": len(walks), "steps": sum(len(w["steps"]) for w in walks), "motifs": dict(collections.Counter(w["w"] for w in walks))}
     chk.mark("tlc_gen")
